@@ -101,6 +101,7 @@ type Engine struct {
 	source, fileName                                    string
 	solverPC                                            []*Term
 	stubLexer                                           bool
+	flipAll, flipHere                                   bool // map ranges of the output printers fork on their direction (C05)
 	outV                                                []Value
 	marks                                               []int
 	known                                               map[int]*Term
@@ -919,7 +920,10 @@ func (e *Engine) visit(fr *frame, in ssa.Instruction) bool {
 	case *ssa.MakeMap:
 		fr.set(in, &Map{index: map[string]int{}})
 	case *ssa.Range:
+		// FlipAllMaps applies to the range statements of the output printers (package ti/cmd)
+		e.flipHere = e.flipAll && fr.fn != nil && fr.fn.Pkg != nil && fr.fn.Pkg.Pkg.Path() == "ti/cmd"
 		fr.set(in, e.rangeIter(fr.get(e, in.X), in.X.Type()))
+		e.flipHere = false
 	case *ssa.Next:
 		fr.set(in, fr.get(e, in.Iter).(*Iter).next(e))
 	case *ssa.FieldAddr:
